@@ -366,6 +366,18 @@ EXPR_WRAPPERS = {
     ('built_in_print.rs::format_for_print_pred', 'out += &the_strings[j];'): 'str_append(&mut out, &the_strings[j]);',
     ('built_in_print.rs::format_for_print_pred', 'out += split[i];'): 'str_append_str(&mut out, split[i]);',
     ('built_in_print.rs::next_solution_print', 'format!("{}", ground_term)'): 'disp_term(ground_term)',
+    # R17: the unsafe walk of the cut.  `self` is the node the caller holds the RefMut of (ghost parameter verif_me); `P.as_ptr()` gives a handle on
+    # the node P points to; `(*raw).F` is an access to field F of that node in the node heap - WITHOUT a lock (that such an access under a live
+    # RefMut of another node is defined behaviour at all is C24's question, not modelled); spec/cutwalk.rs
+    ('solution_node.rs::SolutionNode::set_no_backtracking', 'self.no_backtracking = true;'): 'nd_self_set_flag(Ghost(verif_me), Tracked(heap));',
+    ('solution_node.rs::SolutionNode::set_no_backtracking', 'let raw_ptr = pn.as_ptr();'): 'let raw_ptr = nd_as_ptr(pn);',
+    ('solution_node.rs::SolutionNode::set_no_backtracking', 'unsafe {'): '{',
+    ('solution_node.rs::SolutionNode::set_no_backtracking', '(*raw_ptr).no_backtracking = true;'): 'nd_raw_set_flag_chain(&raw_ptr, Tracked(heap));',
+    ('solution_node.rs::SolutionNode::set_no_backtracking', 'if let Some(head_node) = &(*raw_ptr).head_sn {'): 'if let Some(head_node) = nd_raw_head_sn(&raw_ptr, Tracked(&*heap)) {',
+    ('solution_node.rs::SolutionNode::set_no_backtracking', 'let raw_ptr2 = head_node.as_ptr();'): 'let raw_ptr2 = nd_as_ptr(head_node);',
+    ('solution_node.rs::SolutionNode::set_no_backtracking', '(*raw_ptr2).no_backtracking = true;'): 'nd_raw_set_flag(&raw_ptr2, Tracked(heap));',
+    ('solution_node.rs::SolutionNode::set_no_backtracking', 'option_parent = &(*raw_ptr).parent_node;'): 'option_parent = nd_raw_parent(&raw_ptr, Tracked(&*heap));',
+    ('solution_node.rs::SolutionNode::set_no_backtracking', 'let mut option_parent = &self.parent_node;'): 'let mut option_parent = nd_self_parent(self, Ghost(verif_me), Tracked(&*heap));',
     # the key of a predicate: the same format string in both functions (spec/kb_heap.rs)
     ('goal.rs::Goal::key', '&terms[0]'): 'vec_at(terms, 0)',
     ('unifiable.rs::Unifiable::key', '&terms[0]'): 'vec_at(terms, 0)',
@@ -492,7 +504,11 @@ class FnEmitter:
             pclose = match_close(toks, popen)
             lastp = prev_sig(toks, pclose)
             sep = '' if toks[lastp].text in ('(', ',') else ', '
-            edits.append((toks[pclose].start, toks[pclose].start, sep + 'Tracked(heap): Tracked<&mut Heap>', None))
+            # contract option `[opt ghost_params = Ghost(x): Ghost<T>, ..]`: ghost parameters of a method that works on the node it is
+            # called on (R17: the identity of `self` in the node heap)
+            gp = con.opts.get('ghost_params')
+            extra = (gp + ', ') if gp else ''
+            edits.append((toks[pclose].start, toks[pclose].start, sep + extra + 'Tracked(heap): Tracked<&mut Heap>', None))
             self.counts['R15'] = self.counts.get('R15', 0) + 1
 
         # R7: name the result
